@@ -179,6 +179,7 @@ def split_generic(ty):
 
 
 INFO = {}
+AUX_PIECES = []
 GROUP_OF = {}
 MMODE = [False]
 KNOTMODE = [False]
@@ -362,11 +363,19 @@ class Emitter:
         return "%s_%d" % (base, self.counter)
 
     # ---- effects
+    def mem_take_var(self, e):
+        """`std::mem::take(&mut x)` on a `let mut` variable x: returns x"""
+        if e[0] == "call" and e[1][0] == "path" and tuple(e[1][1])[-2:] == ("mem", "take") and len(e[2]) == 1:
+            a = e[2][0]
+            if a[0] == "unary" and a[1] == "&mut" and a[2][0] == "path" and len(a[2][1]) == 1 and (a[2][1][0] in self.muts or self.mut_all): return a[2][1][0]
+        return None
+
     def has_effect(self, e):
         """does evaluating e possibly leave the enclosing function (return / ?) - closures are their own scope"""
         if e is None or not isinstance(e, tuple): return False
         k = e[0]
         if k in ("return", "try", "break", "continue", "assign", "for", "while", "loop"): return True
+        if k == "call" and self.mem_take_var(e): return True
         if k == "mcall" and e[2] == "for_each": return True
         if k == "mcall" and e[2] == "fold" and self.captured_by_fold(e): return True
         if k == "mcall" and e[2] == "fold" and self.mutref_fold(e): return True
@@ -778,6 +787,9 @@ class Emitter:
             return self.fold_over_mutref(e, k)
         if kind == "mcall" and e[2] == "fold" and self.captured_by_fold(e):
             return self.fold_with_state(e, k)
+        if kind == "call" and self.mem_take_var(e):
+            x = ident(self.mem_take_var(e)); t = ident(self.fresh("t"))
+            return "(let %s := %s\n (let %s := default\n %s))" % (t, x, x, k(t))          # the old contents; the variable is left at its type's default
         if kind == "assign":
             return self.assign(e, k)
         if kind == "for":
@@ -1109,7 +1121,7 @@ def bound_names(node, acc):
         for c in node.values(): bound_names(c, acc)
 
 
-def translate_fn(f, lean_name, fn_names, extra_local=None, file_fns=None, aux_done=None, attr=""):
+def translate_fn(f, lean_name, fn_names, extra_local=None, file_fns=None, aux_done=None, attr="", force_m=False):
     """Lean text of one function (preceded by the auxiliaries it needs from the same file)"""
     file_fns = file_fns or {}
     aux_done = aux_done if aux_done is not None else {}
@@ -1129,7 +1141,7 @@ def translate_fn(f, lean_name, fn_names, extra_local=None, file_fns=None, aux_do
             generics[g] = "α_" + g
             binders.append("{α_%s : Type}" % g)
     qual = ("%s::%s" % (f.get("impl"), f["name"])) if f.get("impl") else f["name"]
-    mmode = (f["name"] in M_FUNCS or qual in M_FUNCS) and not attr and "." not in lean_name
+    mmode = ((f["name"] in M_FUNCS or qual in M_FUNCS) and not attr and "." not in lean_name) or force_m
     knot = qual in KNOT and (qual != "apply" or f.get("impl") is None)
     MMODE[0] = mmode
     KNOTMODE[0] = knot
@@ -1186,7 +1198,7 @@ def translate_fn(f, lean_name, fn_names, extra_local=None, file_fns=None, aux_do
         hf = file_fns.get(name)
         if hf is None or "error" in hf: raise UnsupportedSyntax("calls `%s`, which cannot be translated (%s)" % (name, (hf or {}).get("error", "not found")))
         aux_done[name] = True
-        pre.append(translate_fn(hf, "aux_" + name, fn_names, None, file_fns, aux_done, attr="@[rs] "))
+        AUX_PIECES.append(("aux_" + name, translate_fn(hf, "aux_" + name, fn_names, None, file_fns, aux_done, attr="@[rs] ")))
         MMODE[0] = mmode; KNOTMODE[0] = knot
     uses_self = re.search(r"\bGen\.%s\b" % re.escape(lean_name), term) is not None
     text = "".join(pre)
@@ -1218,6 +1230,7 @@ def generate(excluded):
     status = {}
     spans = []
     aux_done = {}
+    aux_owner = {}
     pieces = []
     for path, rs, ln, props, model in FUNCS:
         if rs in excluded:
@@ -1245,7 +1258,10 @@ def generate(excluded):
         try:
             listed = {r for p_, r, _, _, _ in FUNCS if p_ == path} | set(MODEL_FNS)
             file_fns = {k: v for k, v in fs.items() if k not in listed and "@" not in k}
+            del AUX_PIECES[:]
             txt = translate_fn(f, ln, fn_names, None, file_fns, aux_done)
+            for an, atxt in AUX_PIECES:
+                pieces.append(("aux:" + an, an, path, atxt)); aux_owner["aux:" + an] = rs
             pieces.append((rs, ln, path, txt))
             status[rs] = dict(translated=True, props=props, model=model, lean="JL.Gen." + ln, file=path)
         except UnsupportedSyntax as ex:
@@ -1305,6 +1321,7 @@ def generate(excluded):
         status["table:*"] = dict(translated=False, reason=str(ex), props=["C02", "C03"], model="Tables")
     emit([p_ for p_ in ordered if p_[0] in after])
     out += ["end Gen", "end JL", ""]
+    spans = [(a, b, aux_owner.get(rs_, rs_)) for a, b, rs_ in spans]
     return "\n".join(out), status, spans
 
 
@@ -1362,6 +1379,12 @@ def generate_tables(fn_names, status):
     """the `operator:` of every table entry, as Lean functions keyed by the operator name"""
     src = open(os.path.join(REPO, "src/op/mod.rs"), encoding="utf-8").read()
     lines = []
+    listed = {r for p_, r, _, _, _ in FUNCS} | set(MODEL_FNS)
+    try:
+        mod_fns = {k: v for k, v in rsparse.find_functions(src).items() if k not in listed and "@" not in k and "::" not in k}
+    except UnsupportedSyntax:
+        mod_fns = {}
+    aux_done = {}
     for table, lean, mmode, ty in (("OPERATOR_MAP", "eagerTable", False, "(List Json → Option Json)"), ("LAZY_OPERATOR_MAP", "lazyTable", True, "(Json → List Json → M Json)"),
                                    ("DATA_OPERATOR_MAP", "dataTable", True, "(Json → List Json → M Json)")):
         entries = []
@@ -1376,10 +1399,20 @@ def generate_tables(fn_names, status):
             em = Emitter(fn_names, {})
             em.mmode = mmode
             MMODE[0] = mmode
+            em.file_fns = mod_fns
             try:
                 if opx is None: raise UnsupportedSyntax("no operator field")
                 if opx[0] == "closure": bound_names(opx, em.bound)
                 txt = em.V(opx)
+                for name in em.needed:          # a wrapper function of mod.rs bound in the table: translated as an auxiliary
+                    if name in aux_done: continue
+                    hf = mod_fns.get(name)
+                    if hf is None or "error" in hf: raise UnsupportedSyntax("binds `%s`, which cannot be translated" % name)
+                    aux_done[name] = True
+                    del AUX_PIECES[:]
+                    lines.append(translate_fn(hf, "aux_" + name, fn_names, None, mod_fns, aux_done, attr="@[rs] ", force_m=mmode))
+                    for an, atxt in AUX_PIECES: lines.insert(len(lines) - 1, atxt)
+                    em.mmode = mmode; MMODE[0] = mmode; KNOTMODE[0] = False
                 if re.search(r"\bGen\.op_log\b", txt) and not mmode:
                     mentries.append("(%s, %s)" % (str_lit(key), txt))
                 elif re.match(r"^(JsOp|ArrOp|StrOp|Data|JL)\.", txt) or txt in ("missing", "missingSome") or not re.search(r"Gen\.|fun ", txt):
@@ -1406,7 +1439,7 @@ def lean_errors(spans):
     bad = {}
     lean2rs = {ln: rs for _, rs, ln, _, _ in FUNCS}
     for m in re.finditer(r"Unknown identifier `Gen\.(\w+)", txt):
-        bad.setdefault(lean2rs.get(m.group(1), m.group(1)), "is used before it is defined / is not available")
+        if m.group(1) in lean2rs: bad.setdefault(lean2rs[m.group(1)], "is used before it is defined / is not available")
     if bad: return bad
     for m in re.finditer(r"\.lean:(\d+):\d+: error[^:]*: ([^\n]*)", txt):
         ln = int(m.group(1))
@@ -1442,6 +1475,13 @@ def main():
             continue
         for rs, msg in bad.items():
             excluded[rs] = "Lean rejects the translation: " + msg
+    if "--no-compile" not in sys.argv and lean_errors(spans):
+        # could not be brought to a compiling state by dropping single functions: an empty translation is still a correct one
+        for rs in list(status):
+            if status[rs].get("translated"): excluded[rs] = "the generated file could not be brought to compile"
+        excluded["__tables__"] = "-"
+        text, status, spans = generate(excluded)
+        with open(OUT, "w") as fh: fh.write(text)
     with open(STATUS, "w") as fh:
         json.dump(status, fh, indent=1, sort_keys=True)
     n = sum(1 for s in status.values() if s["translated"])
